@@ -122,9 +122,18 @@ func checkSet(c SetCase) *vk.Violation {
 	pn := guard("set", c, func() {
 		var tl smpp.TLVs
 		var op smgp.Options
-		for _, t := range ts {
-			tl.SetTLV(smpp.NewTLV(t.Tag, t.Val))
-			op.Add(smgp.NewOption(smgp.Tag(t.Tag), t.Val))
+		for i, t := range ts {
+			x := smpp.NewTLV(t.Tag, t.Val)
+			if i%2 == 1 {
+				x = smpp.NewTLVByString(t.Tag, string(t.Val)) // the second constructor
+			}
+			o := smgp.NewOption(smgp.Tag(t.Tag), t.Val)
+			if e := t.Tag == 0 && len(t.Val) == 0; x.IsEmpty() != e || o.IsEmpty() != e {
+				viol = vk.Violf("IsEmpty", c, "tag %#04x with %d value octets: TLV.IsEmpty()=%v Option.IsEmpty()=%v", t.Tag, len(t.Val), x.IsEmpty(), o.IsEmpty())
+				return
+			}
+			tl.SetTLV(x)
+			op.Add(o)
 		}
 		// adding to an empty container takes effect
 		if len(tl) != len(want) {
@@ -407,7 +416,7 @@ func clipb(b []byte) []byte {
 	return b
 }
 
-var sizes = []int{0, 1, 2, 255, 256, 65531}
+var sizes = []int{0, 1, 2, 255, 256, 65531, 4095, 4096, 4097, 32767, 32768}
 
 func drawSet(t *rapid.T, big bool) []ref.Triplet {
 	n := rapid.OneOf(rapid.IntRange(0, 4), rapid.IntRange(0, 32)).Draw(t, "n")
@@ -418,10 +427,13 @@ func drawSet(t *rapid.T, big bool) []ref.Triplet {
 		var l int
 		switch cls := rapid.IntRange(0, 9).Draw(t, fmt.Sprintf("cls%d", i)); {
 		case cls == 0 && big && budget > 0:
-			l = rapid.SampledFrom([]int{65531, 65530, 40000}).Draw(t, fmt.Sprintf("big%d", i))
+			l = rapid.SampledFrom([]int{65531, 65530, 40000, 32768, 32767, 16384}).Draw(t, fmt.Sprintf("big%d", i))
 			budget--
 		case cls == 1:
 			l = rapid.SampledFrom(sizes[:5]).Draw(t, fmt.Sprintf("edge%d", i))
+		case cls == 2 && big && budget > 0:
+			l = rapid.SampledFrom(sizes[6:]).Draw(t, fmt.Sprintf("pow2%d", i))
+			budget--
 		default:
 			l = rapid.IntRange(0, 24).Draw(t, fmt.Sprintf("len%d", i))
 		}
